@@ -5,7 +5,11 @@ use futures_util::Future;
 
 use crate::endpoint::LinkExt;
 
-use super::{resumption::resume_delivery, *};
+use super::{
+    delivery::{DeliveryFut, SendResult},
+    resumption::resume_delivery,
+    *,
+};
 
 impl<T> SenderLink<T>
 where
@@ -104,6 +108,81 @@ where
         Ok(settled)
     }
 
+    /// The link's incoming channel produced `frame` while the sender was waiting for something
+    /// else: answer a detach from the remote peer and tell why the link stopped
+    async fn on_detached(
+        &mut self,
+        writer: &mpsc::Sender<LinkFrame>,
+        frame: Option<LinkFrame>,
+    ) -> LinkStateError {
+        match frame {
+            // If remote has detached the link
+            Some(LinkFrame::Detach(detach)) => {
+                // FIXME: if the sender is not trying to send anything, this is
+                // probably not responsive enough
+                let closed = detach.closed;
+                if let Err(err) = self.send_detach(writer, closed, None).await {
+                    return err.into();
+                }
+                let result = self.on_incoming_detach(detach);
+
+                match (result, closed) {
+                    (Ok(_), true) => LinkStateError::RemoteClosed,
+                    (Ok(_), false) => LinkStateError::RemoteDetached,
+                    (Err(err), _) => LinkStateError::from(err),
+                }
+            }
+            Some(_frame) => {
+                // Other frames should not forwarded to the sender by the session
+                #[cfg(feature = "tracing")]
+                tracing::error!("Unexpected frame: {:?}", _frame);
+                #[cfg(feature = "log")]
+                log::error!("Unexpected frame: {:?}", _frame);
+
+                LinkStateError::ExpectImmediateDetach
+            }
+            None => {
+                // The channel closed without a frame: the session (or its
+                // connection) stopped and the engine dropped the relay.
+                match self.session_stop_reason.get() {
+                    Some(reason) => LinkStateError::SessionStopped(reason.clone()),
+                    None => LinkStateError::ExpectImmediateDetach, // defensive: no stop reason recorded; failure is link-local
+                }
+            }
+        }
+    }
+
+    /// Waits for the outcome of a delivery, or for the link to stop if that happens first
+    ///
+    /// # Cancel safety
+    ///
+    /// This is cancel safe as long as `detached` is
+    pub(crate) async fn outcome_or_detached<Fut>(
+        &mut self,
+        writer: &mpsc::Sender<LinkFrame>,
+        detached: Fut,
+        outcome: DeliveryFut<SendResult>,
+    ) -> SendResult
+    where
+        Fut: Future<Output = Option<LinkFrame>> + Send,
+    {
+        tokio::pin!(detached);
+        tokio::pin!(outcome);
+        tokio::select! {
+            biased;
+
+            outcome = &mut outcome => match outcome {
+                // The settlement channel died although the session has not stopped: the remote
+                // peer closed the link, and the detach that tells why is already in the channel
+                Err(SendError::LinkStateError(LinkStateError::IllegalState))
+                    if self.session_stop_reason.get().is_none() => {}
+                outcome => return outcome,
+            },
+            frame = &mut detached => return Err(self.on_detached(writer, frame).await.into()),
+        }
+        Err(self.on_detached(writer, detached.await).await.into())
+    }
+
     pub(crate) async fn get_delivery_tag_or_detached<Fut>(
         &mut self,
         writer: &mpsc::Sender<LinkFrame>,
@@ -119,41 +198,7 @@ where
         tokio::select! {
             biased;
 
-            frame = detached => { // cancel safe
-                match frame {
-                    // If remote has detached the link
-                    Some(LinkFrame::Detach(detach)) => {
-                        // FIXME: if the sender is not trying to send anything, this is
-                        // probably not responsive enough
-                        let closed = detach.closed;
-                        self.send_detach(writer, closed, None).await?;
-                        let result = self.on_incoming_detach(detach);
-
-                        match (result, closed) {
-                            (Ok(_), true) => Err(LinkStateError::RemoteClosed),
-                            (Ok(_), false) => Err(LinkStateError::RemoteDetached),
-                            (Err(err), _) => Err(LinkStateError::from(err)),
-                        }
-                    },
-                    Some(_frame) => {
-                        // Other frames should not forwarded to the sender by the session
-                        #[cfg(feature = "tracing")]
-                        tracing::error!("Unexpected frame: {:?}", _frame);
-                        #[cfg(feature = "log")]
-                        log::error!("Unexpected frame: {:?}", _frame);
-
-                        Err(LinkStateError::ExpectImmediateDetach)
-                    }
-                    None => {
-                        // The channel closed without a frame: the session (or its
-                        // connection) stopped and the engine dropped the relay.
-                        match self.session_stop_reason.get() {
-                            Some(reason) => Err(LinkStateError::SessionStopped(reason.clone())),
-                            None => Err(LinkStateError::ExpectImmediateDetach), // defensive: no stop reason recorded; failure is link-local
-                        }
-                    }
-                }
-            },
+            frame = detached => Err(self.on_detached(writer, frame).await), // cancel safe
             tag = self.flow_state.consume(1) => {
                 // link-credit is defined as
                 // "The current maximum number of messages that can be handled
